@@ -40,11 +40,19 @@
                               vbi_chsw_reset() the way caption_send_event() does (the repair)
      EventUnlock   TRUE as coded; FALSE = mutex kept across the caption event callback
      HandlerFetch  event handlers may call vbi_fetch_cc_page()
+     Arm           value the dropped-frame branch of vbi_decode() arms the countdown with (40 in the code, small in MC)
+     GapLocked     TRUE as coded: that branch tests and arms chswcd inside chswcd_mutex; FALSE = test outside the mutex
+     ResizeSameUnlocks  TRUE as coded: the early return of vbi_raw_decoder_resize() (unchanged geometry) unlocks
+
+   Every exit path of an API function is an instruction sequence of its own (early returns of resize, add with nothing
+   new, remove of an absent service, reset), so that LockBalance - a thread between two API calls owns no mutex - is
+   checked on each of them.  SwitchServed: a request of vbi_channel_switched() stays in chswcd (value 1) until the next
+   regular frame serves it (or a reset / matching Teletext header clears it as coded); nothing may overwrite it.
 *)
 EXTENDS Naturals, Sequences, FiniteSets, TLC
 
 CONSTANTS Prog,           \* [thread |-> sequence of API calls]
-          ResetLocking, EventUnlock, HandlerFetch
+          ResetLocking, EventUnlock, HandlerFetch, Arm, GapLocked, ResizeSameUnlocks
 
 Threads == DOMAIN Prog
 Free == "-"
@@ -60,13 +68,15 @@ VARIABLES ops,        \* per thread: API calls still to make
           svc, jobs,  \* raw decoder: services word, job table (sets of services)
           par,        \* raw decoder geometry (a counter)
           loc,        \* per thread locals
-          published   \* ghost: page contents at the points where the decoding thread had cc.mutex released
-vars == <<ops, code, holder, page, ver, chswcd, svc, jobs, par, loc, published>>
+          published,  \* ghost: page contents at the points where the decoding thread had cc.mutex released
+          req         \* ghost: a channel switch request is waiting to be served
+vars == <<ops, code, holder, page, ver, chswcd, svc, jobs, par, loc, published, req>>
 
 -----------------------------------------------------------------------------
 \* transition functions of the shared scalars (also used by Trace_Locks)
 TickVal(v)   == IF v > 0 THEN v - 1 ELSE v                 \* vbi_decode: if (chswcd > 0 && --chswcd == 0) reset
 TickFires(v) == v = 1
+GapVal(v)    == IF v = 0 THEN Arm ELSE v                   \* vbi_decode, dropped frames: if (chswcd == 0) chswcd = 40
 AddVal(cur, s)    == cur \cup s
 RemoveVal(cur, s) == cur \ s
 
@@ -81,6 +91,7 @@ Wr(r, p, f, fn)  == I("wr", r, p, f, fn)
 Cb               == I("cb", "", "", "", "handler")
 Maybe(c)         == I("maybe", c, "", "", "")     \* data dependent branch: run c or skip
 IfReset(c)       == I("ifreset", c, "", "", "")   \* run c iff the countdown just reached zero
+IfZero(c)        == I("ifzero", c, "", "", "")    \* run c iff the value of chswcd read before was zero
 J(k, s)      == [k |-> k, s |-> s]            \* how a write changes the job table
 
 \* ---- service decoder
@@ -111,6 +122,13 @@ xds_network_changed ==
   ELSE vbi_chsw_reset(TRUE, TRUE)
 
 vbi_decode_prologue == <<Lk("chsw"), Wr("chswcd", "v", "tick", "vbi_decode"), Ul("chsw"), IfReset(vbi_chsw_reset(FALSE, FALSE))>>
+
+\* a frame whose time stamp is out of step (dropped frames): the branch arms the countdown itself, no tick, no reset;
+\* vbi_teletext_desync / vbi_caption_desync touch decoder-private state only
+vbi_decode_gap_prologue ==
+  IF GapLocked THEN <<Lk("chsw"), Wr("chswcd", "v", "arm", "vbi_decode"), Ul("chsw")>>
+  ELSE <<Rd("chswcd", "v", "vbi_decode"), IfZero(<<Lk("chsw"), Wr("chswcd", "v", "armforce", "vbi_decode"), Ul("chsw")>>)>>
+DecGap == vbi_decode_gap_prologue \o <<Lk("cc"), Ul("cc")>>
 
 \* a frame with a caption pair that completes a word (put_char -> word_break -> update, render -> event)
 DecText == vbi_decode_prologue
@@ -150,6 +168,17 @@ vbi_raw_decoder_add_services(s) == <<Lk("rd")>> \o set_sampling_par
 vbi_raw_decoder_remove_services(s) == <<Lk("rd"), Wr("rd.jobs", "jobs", J("rem", s), "vbi3_raw_decoder_remove_services"),
                                         Wr("rd.jobs", "svc", J("rem", s), "vbi3_raw_decoder_remove_services"), Ul("rd")>>
 vbi_raw_decoder_check_services == <<Lk("rd"), Rd("rd.par", "count", "vbi_raw_decoder_check_services"), Ul("rd")>>
+\* exit paths of their own
+\* add with nothing new: vbi3_raw_decoder_add_services returns early ("No services to add")
+vbi_raw_decoder_add_nothing == <<Lk("rd")>> \o set_sampling_par \o <<Rd("rd.jobs", "svc", "vbi3_raw_decoder_add_services"), Ul("rd")>>
+\* resize with the geometry the decoder already has: early return inside the critical section (decoder.c:556-561)
+vbi_raw_decoder_resize_same == <<Lk("rd"), Rd("rd.par", "count", "vbi_raw_decoder_resize")>> \o (IF ResizeSameUnlocks THEN <<Ul("rd")>> ELSE <<>>)
+\* resize to a geometry without lines: the sampling parameters are invalid, set_sampling_par resets and returns 0
+vbi_raw_decoder_resize_zero == <<Lk("rd"), Rd("rd.par", "count", "vbi_raw_decoder_resize"), Wr("rd.par", "count", "bump", "vbi_raw_decoder_resize"),
+                                 Rd("rd.jobs", "svc", SSP), Wr("rd.jobs", "jobs", J("empty", {}), "vbi3_raw_decoder_reset"),
+                                 Wr("rd.jobs", "svc", J("empty", {}), "vbi3_raw_decoder_reset"), Ul("rd")>>
+vbi_raw_decoder_reset == <<Lk("rd"), Wr("rd.jobs", "jobs", J("empty", {}), "vbi3_raw_decoder_reset"),
+                           Wr("rd.jobs", "svc", J("empty", {}), "vbi3_raw_decoder_reset"), Ul("rd")>>
 vbi_raw_decoder_resize == <<Lk("rd"), Rd("rd.par", "count", "vbi_raw_decoder_resize"), Wr("rd.par", "count", "bump", "vbi_raw_decoder_resize")>>
                           \o set_sampling_par \o <<Ul("rd")>>
 
@@ -157,6 +186,7 @@ CodeOf(op) ==
   CASE op.op = "DecText"     -> DecText
     [] op.op = "DecCmd"      -> DecCmd
     [] op.op = "DecNull"     -> DecNull
+    [] op.op = "DecGap"      -> DecGap
     [] op.op = "DecXdsNet"   -> DecXdsNet
     [] op.op = "DecTtxSame"  -> DecTtxSame
     [] op.op = "DecTtxIncon" -> DecTtxIncon
@@ -168,19 +198,23 @@ CodeOf(op) ==
     [] op.op = "Remove"      -> vbi_raw_decoder_remove_services(op.s)
     [] op.op = "Check"       -> vbi_raw_decoder_check_services
     [] op.op = "Resize"      -> vbi_raw_decoder_resize
+    [] op.op = "AddNothing"  -> vbi_raw_decoder_add_nothing
+    [] op.op = "ResizeSame"  -> vbi_raw_decoder_resize_same
+    [] op.op = "ResizeZero"  -> vbi_raw_decoder_resize_zero
+    [] op.op = "Reset"       -> vbi_raw_decoder_reset
 
 \* the thread that feeds vbi_decode
-IsDecoder(t) == \E k \in 1..Len(Prog[t]) : Prog[t][k].op \in {"DecText", "DecCmd", "DecNull", "DecXdsNet", "DecTtxSame", "DecTtxIncon", "DecTtxOther"}
+IsDecoder(t) == \E k \in 1..Len(Prog[t]) : Prog[t][k].op \in {"DecText", "DecCmd", "DecNull", "DecGap", "DecXdsNet", "DecTtxSame", "DecTtxIncon", "DecTtxOther"}
 
 -----------------------------------------------------------------------------
-Loc0 == [a |-> 0, b |-> 0, got |-> <<>>, reset |-> FALSE, saved |-> {}, s1 |-> {}, s2 |-> {}, dec |-> <<>>]
+Loc0 == [a |-> 0, b |-> 0, cd |-> 0, got |-> <<>>, reset |-> FALSE, saved |-> {}, s1 |-> {}, s2 |-> {}, dec |-> <<>>]
 InitSvc == {}
 Init == /\ ops = Prog /\ code = [t \in Threads |-> <<>>]
         /\ holder = [m \in Mutexes |-> Free]
         /\ page = [a |-> 0, b |-> 0, dirty |-> FALSE] /\ ver = 0 /\ chswcd = 0
         /\ svc = InitSvc /\ jobs = InitSvc /\ par = 0
         /\ loc = [t \in Threads |-> Loc0]
-        /\ published = {<<0, 0>>}
+        /\ published = {<<0, 0>>} /\ req = FALSE
 
 \* mutex primitives (also used by Trace_Locks on the recorded events)
 Acquire(t, m) == holder[m] = Free /\ holder' = [holder EXCEPT ![m] = t]
@@ -195,32 +229,33 @@ Push(t, c) == code' = [code EXCEPT ![t] = c \o Tail(@)]
 StartOp(t) == /\ ~Busy(t) /\ ops[t] # <<>>
               /\ code' = [code EXCEPT ![t] = CodeOf(Head(ops[t]))]
               /\ ops' = [ops EXCEPT ![t] = Tail(@)]
-              /\ UNCHANGED <<holder, page, ver, chswcd, svc, jobs, par, loc, published>>
+              /\ UNCHANGED <<holder, page, ver, chswcd, svc, jobs, par, loc, published, req>>
 
 \* pthread_mutex_lock: blocks while the mutex is owned (also by the caller itself: default mutexes do not recurse)
 Lock(t) == /\ Busy(t) /\ Head1(t).i = "lock"
            /\ Acquire(t, Head1(t).a)
-           /\ Pop(t) /\ UNCHANGED <<ops, page, ver, chswcd, svc, jobs, par, loc, published>>
+           /\ Pop(t) /\ UNCHANGED <<ops, page, ver, chswcd, svc, jobs, par, loc, published, req>>
 
 Unlock(t) == /\ Busy(t) /\ Head1(t).i = "unlock"
              /\ Release(t, Head1(t).a)
              \* the decoding thread leaves a point where others may look at the pages
              /\ published' = IF Head1(t).a = "cc" /\ IsDecoder(t) THEN published \cup {<<page.a, page.b>>} ELSE published
-             /\ Pop(t) /\ UNCHANGED <<ops, page, ver, chswcd, svc, jobs, par, loc>>
+             /\ Pop(t) /\ UNCHANGED <<ops, page, ver, chswcd, svc, jobs, par, loc, req>>
 
 Publish(t) == /\ Busy(t) /\ Head1(t).i = "pub"
               /\ published' = published \cup {<<page.a, page.b>>}
-              /\ Pop(t) /\ UNCHANGED <<ops, holder, page, ver, chswcd, svc, jobs, par, loc>>
+              /\ Pop(t) /\ UNCHANGED <<ops, holder, page, ver, chswcd, svc, jobs, par, loc, req>>
 
 Read(t) == /\ Busy(t) /\ Head1(t).i = "rd"
            /\ LET h == Head1(t) IN
               loc' = [loc EXCEPT ![t] =
                         CASE h.a = "cc.pages" /\ h.b = "a" -> [@ EXCEPT !.a = page.a]
                           [] h.a = "cc.pages" /\ h.b = "b" -> [@ EXCEPT !.b = page.b]
+                          [] h.a = "chswcd" -> [@ EXCEPT !.cd = chswcd]
                           [] h.a = "rd.jobs" /\ h.b = "svc" -> [@ EXCEPT !.s1 = svc, !.saved = svc]
                           [] h.a = "rd.jobs" /\ h.b = "jobs" -> [@ EXCEPT !.s2 = jobs]
                           [] OTHER -> @]
-           /\ Pop(t) /\ UNCHANGED <<ops, holder, page, ver, chswcd, svc, jobs, par, published>>
+           /\ Pop(t) /\ UNCHANGED <<ops, holder, page, ver, chswcd, svc, jobs, par, published, req>>
 
 SetVal(cur, f, t) == CASE f.k = "empty" -> {}
                        [] f.k = "saved" -> loc[t].saved
@@ -240,29 +275,37 @@ Write(t) ==
      /\ chswcd' = CASE h.a = "chswcd" /\ h.c = "tick" -> TickVal(chswcd)
                     [] h.a = "chswcd" /\ h.c = "zero" -> 0
                     [] h.a = "chswcd" /\ h.c = "one"  -> 1
+                    [] h.a = "chswcd" /\ h.c = "arm"  -> GapVal(chswcd)
+                    [] h.a = "chswcd" /\ h.c = "armforce" -> Arm
                     [] OTHER -> chswcd
+     /\ req' = CASE h.a = "chswcd" /\ h.c = "one" -> TRUE
+                 [] h.a = "chswcd" /\ h.c = "zero" -> FALSE                          \* cleared as coded (reset, matching header)
+                 [] h.a = "chswcd" /\ h.c = "tick" /\ TickFires(chswcd) -> FALSE     \* served: the reset follows
+                 [] OTHER -> req
      /\ loc' = IF h.a = "chswcd" /\ h.c = "tick" THEN [loc EXCEPT ![t].reset = TickFires(chswcd)] ELSE loc
      /\ svc'  = IF h.a = "rd.jobs" /\ h.b = "svc"  THEN SetVal(svc, h.c, t) ELSE svc
      /\ jobs' = IF h.a = "rd.jobs" /\ h.b = "jobs" THEN SetVal(jobs, h.c, t) ELSE jobs
      /\ par' = IF h.a = "rd.par" THEN par + 1 ELSE par
   /\ Pop(t) /\ UNCHANGED <<ops, holder, published>>
 
+
 \* an event handler runs in the calling thread; it may fetch a caption page
 Callback(t) == /\ Busy(t) /\ Head1(t).i = "cb"
                /\ \/ Pop(t)
                   \/ HandlerFetch /\ Push(t, vbi_fetch_cc_page)
-               /\ UNCHANGED <<ops, holder, page, ver, chswcd, svc, jobs, par, loc, published>>
+               /\ UNCHANGED <<ops, holder, page, ver, chswcd, svc, jobs, par, loc, published, req>>
 
 Branch(t) == /\ Busy(t)
              /\ \/ Head1(t).i = "maybe" /\ (Pop(t) \/ Push(t, Head1(t).a))
                 \/ Head1(t).i = "ifreset" /\ (IF loc[t].reset THEN Push(t, Head1(t).a) ELSE Pop(t))
-             /\ UNCHANGED <<ops, holder, page, ver, chswcd, svc, jobs, par, loc, published>>
+                \/ Head1(t).i = "ifzero" /\ (IF loc[t].cd = 0 THEN Push(t, Head1(t).a) ELSE Pop(t))
+             /\ UNCHANGED <<ops, holder, page, ver, chswcd, svc, jobs, par, loc, published, req>>
 
 \* return of vbi_fetch_cc_page / vbi_raw_decode: what the caller got
 Return(t) == /\ Busy(t)
              /\ \/ Head1(t).i = "fetched" /\ loc' = [loc EXCEPT ![t].got = <<loc[t].a, loc[t].b>>]
                 \/ Head1(t).i = "decoded" /\ loc' = [loc EXCEPT ![t].dec = <<loc[t].s1, loc[t].s2>>]
-             /\ Pop(t) /\ UNCHANGED <<ops, holder, page, ver, chswcd, svc, jobs, par, published>>
+             /\ Pop(t) /\ UNCHANGED <<ops, holder, page, ver, chswcd, svc, jobs, par, published, req>>
 
 AllDone == \A t \in Threads : ~Busy(t) /\ ops[t] = <<>>
 Next == \/ \E t \in Threads : StartOp(t) \/ Lock(t) \/ Unlock(t) \/ Publish(t) \/ Read(t) \/ Write(t)
@@ -308,14 +351,20 @@ Contexts ==
   \cup {<<"vbi_raw_decode", {}>>}                                    \* the geometry read before the lock
   \cup {<<"handler", {"ev"}>>}
 \* every function of the table labels an instruction of the model
-OpNames == {"DecText", "DecCmd", "DecNull", "DecXdsNet", "DecTtxSame", "DecTtxIncon", "DecTtxOther", "Fetch", "Switch",
+OpNames == {"DecText", "DecCmd", "DecNull", "DecGap", "AddNothing", "ResizeSame", "ResizeZero", "Reset", "DecXdsNet", "DecTtxSame", "DecTtxIncon", "DecTtxOther", "Fetch", "Switch",
             "RawDecode", "Add", "Remove", "Check", "Resize"}
 RECURSIVE Fns(_)
-Fns(c) == UNION {IF c[k].i \in {"maybe", "ifreset"} THEN Fns(c[k].a) ELSE {c[k].fn} : k \in 1..Len(c)}
+Fns(c) == UNION {IF c[k].i \in {"maybe", "ifreset", "ifzero"} THEN Fns(c[k].a) ELSE {c[k].fn} : k \in 1..Len(c)}
 ModelFns == UNION {Fns(CodeOf([op |-> o, s |-> {}])) : o \in OpNames}
 ASSUME \A c \in Contexts : c[1] \in ModelFns
 HeldBy(t) == {m \in Mutexes : holder[m] = t}
 ContextOK == \A t \in Threads : (IsAccess(t) \/ (Busy(t) /\ Head1(t).i = "cb")) => <<Head1(t).fn, HeldBy(t)>> \in Contexts
+
+\* every exit path of an API function has released what the function locked: between two calls a thread owns nothing
+LockBalance == \A t \in Threads : ~Busy(t) => HeldBy(t) = {}
+
+\* a channel switch request is never lost: it stays in the countdown until a regular frame serves it
+SwitchServed == req => chswcd = 1
 
 \* mutual exclusion bookkeeping
 HolderOK == \A m \in Mutexes : holder[m] \in Threads \cup {Free}
